@@ -596,7 +596,7 @@ pub fn leaf_strategy(g: ArrGen) -> BoxedStrategy<ArrSpec> {
     }
     if g.acp {
         opts.push((
-            2,
+            1,
             (dmin_strategy(6, tmax, g.plateau_end), 0u64..=3 * tmax)
                 .prop_map(|(dmin, extra)| {
                     let horizon = dmin.last().unwrap() + 1 + extra;
